@@ -211,6 +211,13 @@ ParseStep(stk, tok) ==
 
 IsDone(stk) == stk # <<>> /\ stk[1].k = "DONE"
 
+\* number of bytes a token occupies in the binary protocol (string/binary payload length is logged as z)
+TokSize(tok) == CASE tok.t = "FB" -> 3 [] tok.t = "STOP" -> 1
+                  [] tok.t \in {"LB", "XB"} -> 5 [] tok.t = "MB" -> 6
+                  [] tok.t = "V" -> (CASE tok.ty \in {2, 3} -> 1 [] tok.ty = 6 -> 2 [] tok.ty = 8 -> 4
+                                       [] tok.ty \in {4, 10} -> 8 [] tok.ty = 11 -> 4 + tok.z)
+                  [] OTHER -> 0
+
 RECURSIVE ParseAll(_, _, _)
 ParseAll(stk, toks, i) == IF i > Len(toks) THEN stk ELSE ParseAll(ParseStep(stk, toks[i]), toks, i + 1)
 ParseTokens(toks) == ParseAll(<<>>, toks, 1)
@@ -285,4 +292,30 @@ Dec(t, toks, p) ==
     [] t.n = "struct" -> DecFields(t.s, toks, p + 1, InitialStruct(t.s), {}, <<k>>)
 
 DecStruct(s, toks) == Dec([n |-> "struct", s |-> s], toks, 1)
+
+\* ---- normal form of a value as the reference reader reconstructs it from its own encoding
+RECURSIVE Norm(_, _, _)
+Norm(t, v, opt) ==
+  CASE IsScalar(t) -> v
+    [] t.n \in {"list", "set"} -> IF IsNil(v) THEN (IF opt THEN NIL ELSE [l |-> <<>>])
+                                  ELSE [l |-> [i \in 1..Len(v.l) |-> Norm(t.v, v.l[i], FALSE)]]
+    [] t.n = "map" -> IF IsNil(v) THEN (IF opt THEN NIL ELSE [m |-> <<>>])
+                      ELSE [m |-> [i \in 1..Len(v.m) |-> <<Norm(t.k, v.m[i][1], FALSE), Norm(t.v, v.m[i][2], FALSE)>>]]
+    [] t.n = "struct" ->
+         IF IsNil(v) THEN (IF opt THEN NIL ELSE InitialStruct(t.s))
+         ELSE [s |-> [nm \in DOMAIN v.s |->
+                 LET f == Fields(t.s)[CHOOSE i \in FieldIdx(t.s) : Fields(t.s)[i].name = nm] IN
+                 IF Present(f, v.s[nm]) THEN Norm(f.type, v.s[nm], f.req = "optional") ELSE Initial(f)]]
+
+
+\* order-free abstraction of a (normal-form) value: map entries and set elements as sets
+RECURSIVE Abs(_, _)
+Abs(t, v) ==
+  IF IsNil(v) THEN v
+  ELSE CASE IsScalar(t) -> v
+    [] t.n = "list" -> [l |-> [i \in 1..Len(v.l) |-> Abs(t.v, v.l[i])]]
+    [] t.n = "set" -> [x |-> {Abs(t.v, v.l[i]) : i \in 1..Len(v.l)}, n |-> Len(v.l)]
+    [] t.n = "map" -> [m |-> {<<Abs(t.k, v.m[i][1]), Abs(t.v, v.m[i][2])>> : i \in 1..Len(v.m)}, n |-> Len(v.m)]
+    [] t.n = "struct" -> [s |-> [nm \in DOMAIN v.s |->
+                           Abs(Fields(t.s)[CHOOSE i \in FieldIdx(t.s) : Fields(t.s)[i].name = nm].type, v.s[nm])]]
 =============================================================================
